@@ -66,7 +66,9 @@ def run(ck, ctx):
                     return leaves(v.args[1], depth + 1) + leaves(v.args[2], depth + 1)
                 return [v]
             closures = [n for n in leaves(alt) if n.op in ("Closure", "Func", "BoundMethod") or
-                        is_ext_call(n, "functools.partial")]
+                        is_ext_call(n, "functools.partial") or
+                        (n.op == "Obj" and n.extra and n.extra.get("cls") is not None and
+                         I.find_method(n.extra["cls"], "__call__") is not None)]
         ck.floor("R09.1", len(closures), 3, "altitude callables bound by the dispatcher")
         # un-raised exception in the fall-through (unreachable given pydantic validation): note only
         fi = I.find_method(ci, "__init__")
@@ -364,6 +366,47 @@ def run(ck, ctx):
             ck.ob("R09.5", "the closure returns that conversion's value unchanged", g.same(pcalls[0][3], mv) or
                   I.snapshot(pcalls[0][3], st) is mv, mv, fn, "")
             leak = subs and cone_has(mv, subs[0], except_under=[p_arg(pcalls[0])])
+            # every positive map pressure has a finite cloud top (the maps hold pressures above the standard sea-level
+            # value - clear-sky cells - whose altitude is below sea level: below every shower, not "no sky at all"):
+            # the result is infinite exactly where the pressure is not positive
+            from ..facets.poly import PolyFacet as _PF
+            pr9 = Pred(I, poly=_PF(I, gather_transparent=True))
+            Parg = p_arg(pcalls[0])
+
+            def is_inf(n_):
+                return n_.op == "Ext" and n_.attr in ("numpy.inf", "math.inf")
+            inf_masks = []
+            v_ = mv
+            for _ in range(8):
+                if v_.op != "Scatter":
+                    break
+                base_, m_, val_ = v_.args
+                if is_inf(val_):
+                    inf_masks.append(("is", m_))
+                v_ = base_
+            if is_ext_call(v_, "numpy.full_like", "numpy.full") and len(v_.args) >= 3 and is_inf(v_.args[2]):
+                # inf everywhere, overwritten where finite: infinite where no later store reaches
+                stores = []
+                w_ = mv
+                while w_.op == "Scatter":
+                    if not is_inf(w_.args[2]):
+                        stores.append(w_.args[1])
+                    w_ = w_.args[0]
+                if stores:
+                    inf_masks.append(("not-any", stores))
+            if inf_masks:
+                pos_f = pr9.lt(I.const(0), Parg)
+                fs = []
+                for kind_, m_ in inf_masks:
+                    fs.append(pr9.formula(m_) if kind_ == "is" else
+                              ("not", ("or",) + tuple(pr9.formula(x_) for x_ in m_) if len(m_) > 1 else pr9.formula(m_[0])))
+                f_inf = ("or",) + tuple(fs) if len(fs) > 1 else fs[0]
+                eqv = pr9.equivalent(f_inf, ("not", pos_f))
+                ck.ob("R09.5", "the cloud top is infinite exactly where the map pressure is not positive (every positive "
+                      "pressure - also one above the standard sea-level value - has a finite altitude)",
+                      bool(eqv and eqv[0]) if eqv is not None else None, mv, "us_std_atm_altitude_from_pressure",
+                      f"infinite where {pr9.show(f_inf)[:160]}",
+                      construct="us_std_atm_altitude_from_pressure: which pressures map to an infinite altitude")
             # the pressure value must not bypass the conversion: every path from it goes through P
         ex = [c for c in I.call_log if c[0].qualname == "extract_fits_cloud_pressure_map_v0"]
         okf = False
